@@ -13,6 +13,10 @@ from measured import Number, One, Unit
 
 from .common import BaseContext
 
+LEVEL_TEXT = "For every finite history of public operations (unit arithmetic, roots, as_ratio and the renderings that call it, quantify, prefix application, symbol resolution, define/derive/alias) the Lean model's intern table satisfies: each unit's dimension equals the product of its factors' dimensions (run_inv, by induction over the op list, no bound on length); the dimension of a unit expression is its homomorphic image regardless of history (dimension_history_independent). The hypotheses are discharged for the state the shipped modules register at import (init_ginv, decide +kernel over data regenerated from /repo on every run). The model is tied to the code by differential execution of generated histories, comparing object identity by creation ordinal, plus the property's own oracle on every interned unit of the real library."
+LEVEL_NOTE = 'Trusted: Lean kernel; translator gen_init.py; correspondence harness. Modelled not verified: lru_cache transparency (justified by idempotence of interning), dict insertion order, conversion planner (corresponds on generated cases). Hand-crafted pickle/JSON payloads with a lying dimension field are outside the quantifier.'
+TECHNIQUE = 'Lean 4 invariant proof by induction over operation histories + regenerated initial state (decide +kernel) + differential correspondence'
+
 THEOREMS = [
     "Measured.C01.step_preserves_inv",
     "Measured.C01.run_inv",
